@@ -5,6 +5,7 @@ from .engine import HarnessError, Violation
 from . import engine, findings
 
 ROOT = os.path.dirname(os.path.dirname(os.path.abspath(__file__)))
+OUT = os.environ.get("VERIF_OUT", ROOT)      # where evidence/ and replays/ go (mutant runs redirect this)
 MAX_REPORTED = 6
 
 
@@ -29,7 +30,7 @@ def jsonable(o):
 
 
 def write_replay(pid, payload):
-    d = os.path.join(ROOT, "replays", pid)
+    d = os.path.join(OUT, "replays", pid)
     os.makedirs(d, exist_ok=True)
     text = json.dumps(jsonable(payload), indent=1, sort_keys=True)
     name = hashlib.md5(json.dumps(jsonable({k: payload.get(k) for k in ("scenario", "events", "input", "kind", "tier")}),
@@ -186,8 +187,8 @@ def run_property(pid, mod, tier, seed, verbose=False):
     ev = dict(property_id=pid, tier=tier, seed=seed, level="model_checking", coverage=jsonable(cov),
               assumptions=list(getattr(mod, "ASSUMPTIONS", [])), wall_s=round(time.time() - t0, 2),
               violations=nviol)
-    os.makedirs(os.path.join(ROOT, "evidence"), exist_ok=True)
-    with open(os.path.join(ROOT, "evidence", pid + ".json"), "w") as fh:
+    os.makedirs(os.path.join(OUT, "evidence"), exist_ok=True)
+    with open(os.path.join(OUT, "evidence", pid + ".json"), "w") as fh:
         json.dump(ev, fh, indent=1, sort_keys=True)
         fh.write("\n")
     log("%s %s tier=%s seed=%d states=%s transitions=%s evaluations=%d exhaustive=%s wall=%.1fs"
